@@ -58,7 +58,7 @@ def decode(data: bytes):
         elif name == 'wedge':
             ops.append((name, v(), v(), -1 if fdp.ConsumeBool() else 1))
         elif name == 'sort':
-            ops.append((name, fdp.ConsumeBool()))
+            ops.append((name, fdp.ConsumeBool(), fdp.ConsumeIntInRange(0, 2)))
         else:
             ops.append((name, vals()))
     return ops
